@@ -772,8 +772,8 @@ fn algebra_case<T: El>(rng: &mut Rng, rep: &mut Report, tag: &str) {
             }
         }
     }
-    let bha = Bh::new(*rng.pick(&[HMode::Good, HMode::Good, HMode::Identity, HMode::SameTag]), rng.below(8));
-    let bhb = Bh::new(*rng.pick(&[HMode::Good, HMode::Good, HMode::Identity, HMode::SameTag]), rng.below(8));
+    let bha = Bh::new(*rng.pick(&[HMode::Good, HMode::Good, HMode::Identity, HMode::SameTag, HMode::OneShot]), rng.below(8));
+    let bhb = Bh::new(*rng.pick(&[HMode::Good, HMode::Good, HMode::Identity, HMode::SameTag, HMode::OneShot]), rng.below(8));
     let (pa, pb) = (rng.below(5), rng.below(5));
     let (sa, split_a) = build_set::<T>(&a, bha, pa, rng);
     let (sb, split_b) = build_set::<T>(&b, bhb, pb, rng);
@@ -840,7 +840,7 @@ pub fn sets(a: &Args, rep: &mut Report) {
             let _ = std::fs::write(pf, h.to_string());
         }
         let elem = *hr.pick(&[ElemKind::U64, ElemKind::TrInline, ElemKind::TrHeap]);
-        let mode = *hr.pick(&[HMode::Good, HMode::Good, HMode::Identity, HMode::SameGroup, HMode::SameTag, HMode::LowEntropy, HMode::Const]);
+        let mode = *hr.pick(&[HMode::Good, HMode::Good, HMode::Identity, HMode::SameGroup, HMode::SameTag, HMode::LowEntropy, HMode::Const, HMode::OneShot]);
         let slow = matches!(mode, HMode::Const | HMode::LowEntropy | HMode::SameGroup);
         let cfg = Cfg { elem, bh: Bh::new(mode, hr.below(4)), cap: *hr.pick(&[usize::MAX, 0, 3, 7, 14, 28]), check_every: 1, cursor_every: 1, focus: static_prop(&rep.prop), ledger_only: false };
         let keyspace = *hr.pick(&[8u64, 40, 200, 1000]);
